@@ -1,0 +1,52 @@
+// -*- Mode: Go; indent-tabs-mode: t -*-
+//go:build verif
+
+/*
+ * Copyright (C) 2026 Canonical Ltd
+ *
+ * This program is free software: you can redistribute it and/or modify
+ * it under the terms of the GNU General Public License version 3 as
+ * published by the Free Software Foundation.
+ *
+ * This program is distributed in the hope that it will be useful,
+ * but WITHOUT ANY WARRANTY; without even the implied warranty of
+ * MERCHANTABILITY or FITNESS FOR A PARTICULAR PURPOSE.  See the
+ * GNU General Public License for more details.
+ *
+ * You should have received a copy of the GNU General Public License
+ * along with this program.  If not, see <http://www.gnu.org/licenses/>.
+ *
+ */
+
+package ctlcmd
+
+import (
+	"github.com/jessevdk/go-flags"
+)
+
+// verifCommandRecorder is the observation point of runtime-monitoring hook H1
+// (build tag "verif" only). When a monitor has installed a recorder, Run does
+// not execute the command selected by the option parser: the recorder is told
+// which command would have been executed instead. names is the chain of
+// active go-flags commands (e.g. ["kmod", "insert"]), cmd the concrete
+// command value whose Execute would have run, args the remaining arguments.
+//
+// With no recorder installed Run behaves exactly as without the build tag.
+var verifCommandRecorder func(names []string, cmd flags.Commander, args []string)
+
+// verifInstrumentParser is called by Run on the fully populated parser just
+// before the arguments are parsed.
+func verifInstrumentParser(parser *flags.Parser) {
+	rec := verifCommandRecorder
+	if rec == nil {
+		return
+	}
+	parser.CommandHandler = func(cmd flags.Commander, args []string) error {
+		var names []string
+		for c := parser.Active; c != nil; c = c.Active {
+			names = append(names, c.Name)
+		}
+		rec(names, cmd, args)
+		return nil
+	}
+}
